@@ -165,13 +165,14 @@ func (discardVisitor) OnFloat64(float64) error                      { return nil
 
 var regTType = reflect.TypeOf(gomodel.RegT{})
 var rDurType = reflect.TypeOf(gomodel.RDur(0))
+var regPSType = reflect.TypeOf(gomodel.RegPS{})
 
 func usesRegT(t reflect.Type, depth int, seen map[reflect.Type]bool) bool {
 	if depth > 12 || seen[t] {
 		return false
 	}
 	seen[t] = true
-	if t == regTType || t == rDurType {
+	if t == regTType || t == rDurType || t == regPSType {
 		return true
 	}
 	switch t.Kind() {
